@@ -68,9 +68,9 @@ impl Check for C15 {
     }
     fn n_runs(&self, thorough: bool) -> u64 {
         if thorough {
-            50_000
+            1_600_000
         } else {
-            2_000
+            30_000
         }
     }
     fn gen_plan(&self, seed: u64, _idx: u64, _t: bool) -> Value {
